@@ -27,7 +27,7 @@ def run(tier):
     chk = Check(PROP, tier)
     lean_ok = lean_gate(chk, THEOREMS)
     quick = tier == "quick"
-    n_gen = 60 if quick else 900
+    n_gen = 110 if quick else 900
     nmax = 5
     r = rng(f"{PROP}-{tier}")
     cases = pipeline.load_corpus(PROP)
